@@ -45,6 +45,8 @@ type Engine struct {
 	importAlias map[string]map[string]string
 	sigCache   map[string][]*ssa.Function
 	loadErrs   []string
+	autoOnce   sync.Once
+	autoSet    map[*ssa.Function]bool
 }
 
 func cleanEnv() []string {
@@ -143,8 +145,120 @@ func LoadEngine(repo string) (*Engine, error) {
 			e.funcByKey[pkgOf(f).Pkg.Path()+" "+relFuncName(f)] = f
 		}
 	}
+	e.impliedRecoverContracts()
 	// package-level function variables initialised once with a function (timeNow = time.Now) are NOT resolved: tests replace them.
 	return e, nil
+}
+
+// firstDeferred returns the function called by the first `defer` of fn's entry block when nothing
+// that can panic precedes it (closure or named function), the defer instruction, and a reason.
+func firstDeferred(fn *ssa.Function) (*ssa.Function, *ssa.Defer, string) {
+	if len(fn.Blocks) == 0 {
+		return nil, nil, "no body"
+	}
+	for _, in := range fn.Blocks[0].Instrs {
+		switch i := in.(type) {
+		case *ssa.Alloc, *ssa.MakeClosure, *ssa.DebugRef, *ssa.Store, *ssa.FieldAddr, *ssa.UnOp:
+			continue
+		case *ssa.Defer:
+			if mc, ok := i.Call.Value.(*ssa.MakeClosure); ok {
+				if cf, _ := mc.Fn.(*ssa.Function); cf != nil {
+					return cf, i, ""
+				}
+			}
+			if cf := i.Call.StaticCallee(); cf != nil && len(cf.Blocks) > 0 {
+				return cf, i, ""
+			}
+			return nil, i, "first defer is neither a closure nor a function with a body"
+		default:
+			return nil, nil, fmt.Sprintf("instruction %T precedes the recovering defer", in)
+		}
+	}
+	return nil, nil, "no defer in the entry block"
+}
+
+// impliedRecoverContracts: `recoverguard` on F says "the first deferred call turns any panic into a
+// non-nil error result".  When the deferred function has no contract of its own, the contract that
+// this demands of it is implied: `recovers`, `nopanic`, and - with recover() yielding a non-nil
+// value - the error result it can reach is non-nil afterwards (`er != nil` for a closure capturing
+// the named result `er`; `*p != nil` for a named function that is handed the result's address).
+// So the recovering code may be a closure or a helper, numbered or named however the maintainer likes.
+func (e *Engine) impliedRecoverContracts() {
+	for pp, pc := range e.contracts {
+		var keys []string
+		for k := range pc.Funcs {
+			keys = append(keys, k)
+		}
+		sort.Strings(keys)
+		for _, k := range keys {
+			fc := pc.Funcs[k]
+			if !fc.RecoverGuard {
+				continue
+			}
+			fn := e.funcByKey[pp+" "+k]
+			if fn == nil {
+				continue
+			}
+			cf, d, _ := firstDeferred(fn)
+			if cf == nil || !e.inModule(cf) || e.contractOf(cf) != nil {
+				continue
+			}
+			errT := types.Universe.Lookup("error").Type()
+			isErrPtr := func(t types.Type) bool {
+				pt, ok := t.Underlying().(*types.Pointer)
+				return ok && types.Identical(pt.Elem(), errT)
+			}
+			text, pre := "", ""
+			if cf.Parent() != nil {
+				for _, fv := range cf.FreeVars {
+					if isErrPtr(fv.Type()) {
+						text = fv.Name() + " != nil"
+					}
+				}
+			} else {
+				for i, p := range cf.Params {
+					if isErrPtr(p.Type()) && i < len(d.Call.Args) {
+						if al, ok := d.Call.Args[i].(*ssa.Alloc); ok && isNamedResult(fn, al) {
+							text = "*" + p.Name() + " != nil"
+							pre = p.Name() + " != nil"
+						}
+					}
+				}
+			}
+			if text == "" {
+				continue // recoverGuardOK reports that the deferred function cannot be shown to set the error result
+			}
+			ex, err := parser.ParseExpr(text)
+			if err != nil {
+				continue
+			}
+			cpc := e.contracts[pkgOf(cf).Pkg.Path()]
+			if cpc == nil {
+				continue
+			}
+			key := relFuncName(cf)
+			nfc := &FuncContract{Key: key, PkgPath: cpc.PkgPath, Loops: map[int][]*Clause{}, Asserts: map[string][]*Clause{}, File: fc.File, Line: fc.Line,
+				Props: fc.RecoverGuardProps, Recovers: true, NoPanic: true, NoPanicProps: fc.RecoverGuardProps, Implied: true}
+			nfc.Ensures = append(nfc.Ensures, &Clause{Text: text + "   (implied by `recoverguard` of " + k + ")", Expr: ex, Props: fc.RecoverGuardProps, File: fc.File, Line: fc.Line, Kind: "ensures"})
+			if pre != "" {
+				if px, err := parser.ParseExpr(pre); err == nil {
+					nfc.Requires = append(nfc.Requires, &Clause{Text: pre + "   (implied by `recoverguard` of " + k + ")", Expr: px, Props: fc.RecoverGuardProps, File: fc.File, Line: fc.Line, Kind: "requires"})
+				}
+			}
+			cpc.Funcs[key] = nfc
+			cpc.Order = append(cpc.Order, key)
+		}
+	}
+}
+
+func isNamedResult(fn *ssa.Function, al *ssa.Alloc) bool {
+	res := fn.Signature.Results()
+	for i := 0; i < res.Len(); i++ {
+		if res.At(i).Name() != "" && res.At(i).Name() == al.Comment {
+			return true
+		}
+	}
+	return false
 }
 
 func pkgOf(f *ssa.Function) *ssa.Package {
@@ -187,7 +301,125 @@ func (e *Engine) pureGlobal(g *ssa.Global) bool {
 	return pc != nil && pc.Pure[g.Name()]
 }
 
-func (e *Engine) autoInline(f *ssa.Function) bool { return false }
+// autoInline: a helper that is part of its callers.  An unexported, uncontracted, loop-free, small
+// in-module function or method that is only ever the static callee of plain calls (never a function
+// value, never started with `go`, never deferred, never reachable through an interface) is executed
+// inline at each call site, in the caller's lock state and ghost state; the anchored clauses of the
+// calling function's contract apply inside it.  Extracting a few lines of a function under contract
+// into such a helper therefore changes no obligation.  The helper is not verified on its own by the
+// lock / guarded-by sweeps (its callers are).  GOVC_NOAUTOINLINE=1 turns this off.
+func (e *Engine) autoInline(f *ssa.Function) bool {
+	e.autoOnce.Do(e.computeAutoInline)
+	return e.autoSet[f]
+}
+
+const autoInlineMaxInstrs = 120
+
+func hasCycle(f *ssa.Function) bool {
+	state := make([]int, len(f.Blocks)) // 0 new, 1 on stack, 2 done
+	var dfs func(b *ssa.BasicBlock) bool
+	dfs = func(b *ssa.BasicBlock) bool {
+		state[b.Index] = 1
+		for _, s := range b.Succs {
+			if state[s.Index] == 1 || (state[s.Index] == 0 && dfs(s)) {
+				return true
+			}
+		}
+		state[b.Index] = 2
+		return false
+	}
+	return len(f.Blocks) > 0 && dfs(f.Blocks[0])
+}
+
+func (e *Engine) computeAutoInline() {
+	e.autoSet = map[*ssa.Function]bool{}
+	if os.Getenv("GOVC_NOAUTOINLINE") != "" {
+		return
+	}
+	escaped := map[*ssa.Function]bool{}
+	ifaceMethods := map[string]bool{}
+	for _, p := range e.prog.AllPackages() {
+		if !strings.HasPrefix(p.Pkg.Path(), modulePath) {
+			continue
+		}
+		sc := p.Pkg.Scope()
+		for _, n := range sc.Names() {
+			if tn, ok := sc.Lookup(n).(*types.TypeName); ok {
+				if it, ok := tn.Type().Underlying().(*types.Interface); ok {
+					for i := 0; i < it.NumMethods(); i++ {
+						ifaceMethods[it.Method(i).Name()] = true
+					}
+				}
+			}
+		}
+	}
+	for g := range e.allFuncs {
+		for _, b := range g.Blocks {
+			for _, in := range b.Instrs {
+				if _, dbg := in.(*ssa.DebugRef); dbg {
+					continue
+				}
+				var callee ssa.Value
+				if c, ok := in.(*ssa.Call); ok && !c.Call.IsInvoke() && g.Synthetic == "" {
+					callee = c.Call.Value
+				}
+				for _, op := range in.Operands(nil) {
+					if op == nil || *op == nil {
+						continue
+					}
+					if fn, ok := (*op).(*ssa.Function); ok {
+						if callee != nil && *op == callee && op == &in.(*ssa.Call).Call.Value {
+							continue
+						}
+						if w := os.Getenv("GOVC_AUTOINLINE_WHY"); w != "" && strings.Contains(fn.String(), w) {
+							fmt.Fprintf(os.Stderr, "AUTOINLINE-ESC %s in %s: %T %s\n", fn, g, in, in)
+						}
+						escaped[fn] = true
+					}
+				}
+			}
+		}
+	}
+	why := os.Getenv("GOVC_AUTOINLINE_WHY")
+	for f := range e.allFuncs {
+		if why != "" && strings.Contains(f.String(), why) {
+			fmt.Fprintln(os.Stderr, "AUTOINLINE-WHY", f, "inModule", e.inModule(f), "blocks", len(f.Blocks), "synthetic", f.Synthetic, "parent", f.Parent() != nil, "escaped", escaped[f],
+				"exported", f.Object() != nil && f.Object().Exported(), "contract", e.contractOf(f) != nil, "cycle", hasCycle(f))
+		}
+		if !e.inModule(f) || len(f.Blocks) == 0 || f.Synthetic != "" || f.Parent() != nil || escaped[f] {
+			continue
+		}
+		if f.Object() == nil || f.Object().Exported() || f.Name() == "init" || f.Name() == "main" || f.TypeParams().Len() > 0 || len(f.TypeArgs()) > 0 {
+			continue
+		}
+		if f.Signature.Recv() != nil && ifaceMethods[f.Name()] {
+			continue
+		}
+		if e.contractOf(f) != nil {
+			continue
+		}
+		n, ok := 0, !hasCycle(f) // loops need invariants, i.e. a contract
+		for _, b := range f.Blocks {
+			for _, in := range b.Instrs {
+				if _, dbg := in.(*ssa.DebugRef); !dbg {
+					n++
+				}
+				switch in.(type) {
+				case *ssa.Go:
+					ok = false
+				case *ssa.Defer:
+					// `defer mu.Unlock()` and the like; a deferred closure (which might recover) needs a contract
+					if d := in.(*ssa.Defer); d.Call.IsInvoke() || d.Call.StaticCallee() == nil || d.Call.StaticCallee().Parent() != nil {
+						ok = false
+					}
+				}
+			}
+		}
+		if ok && n <= autoInlineMaxInstrs {
+			e.autoSet[f] = true
+		}
+	}
+}
 
 func (e *Engine) srcLine(p token.Position) string {
 	if p.Filename == "" {
@@ -627,6 +859,45 @@ func (e *Engine) LockingFunctions() []*ssa.Function {
 		if p := pkgOf(f); p == nil || strings.Contains(p.Pkg.Path(), "/examples/") || strings.HasSuffix(p.Pkg.Path(), "mock") {
 			continue
 		}
+		if e.autoInline(f) {
+			continue // checked at every call site, in the caller's lock state
+		}
+		if e.throughAutoInlined(f, e.locksDirectly) {
+			out = append(out, f)
+		}
+	}
+	sort.Slice(out, func(i, j int) bool { return out[i].String() < out[j].String() })
+	return out
+}
+
+// throughAutoInlined: pred holds for f or for an auto-inlined helper f (transitively) calls.
+func (e *Engine) throughAutoInlined(f *ssa.Function, pred func(*ssa.Function) bool) bool {
+	seen := map[*ssa.Function]bool{}
+	var rec func(g *ssa.Function) bool
+	rec = func(g *ssa.Function) bool {
+		if seen[g] {
+			return false
+		}
+		seen[g] = true
+		if pred(g) {
+			return true
+		}
+		for _, b := range g.Blocks {
+			for _, in := range b.Instrs {
+				if c, ok := in.(*ssa.Call); ok {
+					if callee := c.Call.StaticCallee(); callee != nil && e.autoInline(callee) && rec(callee) {
+						return true
+					}
+				}
+			}
+		}
+		return false
+	}
+	return rec(f)
+}
+
+func (e *Engine) locksDirectly(f *ssa.Function) bool {
+	{
 		found := false
 		for _, b := range f.Blocks {
 			for _, in := range b.Instrs {
@@ -649,12 +920,8 @@ func (e *Engine) LockingFunctions() []*ssa.Function {
 				}
 			}
 		}
-		if found {
-			out = append(out, f)
-		}
+		return found
 	}
-	sort.Slice(out, func(i, j int) bool { return out[i].String() < out[j].String() })
-	return out
 }
 
 // GuardedAccessFunctions lists in-module functions that touch a field declared `guarded[...]`.
@@ -671,14 +938,7 @@ func (e *Engine) GuardedAccessFunctions(prop string) []*ssa.Function {
 			}
 		}
 	}
-	var out []*ssa.Function
-	for f := range e.allFuncs {
-		if !e.inModule(f) || len(f.Blocks) == 0 || f.Synthetic != "" {
-			continue
-		}
-		if p := pkgOf(f); p == nil || strings.Contains(p.Pkg.Path(), "/examples/") || strings.HasSuffix(p.Pkg.Path(), "mock") {
-			continue
-		}
+	touches := func(f *ssa.Function) bool {
 		found := false
 		for _, b := range f.Blocks {
 			for _, in := range b.Instrs {
@@ -713,10 +973,23 @@ func (e *Engine) GuardedAccessFunctions(prop string) []*ssa.Function {
 				}
 			}
 		}
+		return found
+	}
+	var out []*ssa.Function
+	for f := range e.allFuncs {
+		if !e.inModule(f) || len(f.Blocks) == 0 || f.Synthetic != "" {
+			continue
+		}
+		if p := pkgOf(f); p == nil || strings.Contains(p.Pkg.Path(), "/examples/") || strings.HasSuffix(p.Pkg.Path(), "mock") {
+			continue
+		}
 		if fc := e.contractOf(f); fc != nil && fc.Inline {
 			continue // lock helpers marked `inline` are checked at every call site, in the caller's lock state
 		}
-		if found {
+		if e.autoInline(f) {
+			continue // likewise (engine.autoInline)
+		}
+		if e.throughAutoInlined(f, touches) {
 			out = append(out, f)
 		}
 	}
@@ -784,12 +1057,24 @@ func (fc *FuncContract) serves(prop string) bool {
 	if has(fc.Props) || has(fc.NoPanicProps) || has(fc.RecoverGuardProps) {
 		return true
 	}
+	for _, ps := range fc.NoPanicKinds {
+		if has(ps) {
+			return true
+		}
+	}
 	for _, c := range fc.Ensures {
 		if has(c.Props) {
 			return true
 		}
 	}
 	for _, cs := range fc.Loops {
+		for _, c := range cs {
+			if has(c.Props) {
+				return true
+			}
+		}
+	}
+	for _, cs := range fc.Asserts {
 		for _, c := range cs {
 			if has(c.Props) {
 				return true
